@@ -92,6 +92,8 @@ func (p *Core) execGenesisRestart(op sim.Op) {
 	p.snap[op.C] = c.Census(coreStores)
 	if p.Opt.Tokens {
 		p.tok.bank[op.C] = p.snapshotBank(op.C)
+		// the restarted chain must still track the same escrow totals (C31)
+		p.checkTrackedEscrow(op.C, p.tok.bank[op.C])
 	}
 	// (a) every IBC-relevant store is reproduced key by key
 	lost := map[string][]string{}
@@ -115,7 +117,12 @@ func (p *Core) execGenesisRestart(op sim.Op) {
 			knownLoss = true
 		}
 	}
-	if knownLoss && len(w.Viol) == 0 {
+	if knownLoss && len(w.Viol) == 0 && p.Opt.NoAlias && onlyAliasBookkeepingLost(lost) {
+		// the world never used v2-over-alias: only the (unused) alias bookkeeping of its v1
+		// channels is gone, everything the model relies on survived, so the run continues on the
+		// restarted chain
+		w.Stats.Probe("world_continues_after_genesis_restart")
+	} else if knownLoss && len(w.Viol) == 0 {
 		// every loss is a listed known finding: the restarted chain no longer has the state the
 		// model (correctly) expects, so this world ends here instead of reporting the consequences
 		w.StopQuietly("state lost by a known export/import defect")
@@ -135,6 +142,15 @@ func (p *Core) execGenesisRestart(op sim.Op) {
 	}
 	w.Stats.Probe("genesis_export_import_compared")
 	w.Stats.NonTrivial(fmt.Sprintf("gexp:pkts=%d:keys=%d", min64(int64(len(p.Order)), 12), min64(int64(len(before.KV["ibc"])/20), 10)))
+}
+
+func onlyAliasBookkeepingLost(lost map[string][]string) bool {
+	for sig := range lost {
+		if sig != "ibc:clients/*/counterparty:lost" && sig != "ibc:v2-alias-mapping:lost" {
+			return false
+		}
+	}
+	return true
 }
 
 func jsonEqual(a, b json.RawMessage) bool {
